@@ -3,7 +3,7 @@
 import json, subprocess, sys
 props = json.load(open('/verif/tools/manifest_props.json'))
 hooks_commits = subprocess.run(['git','-C','/repo','log','--format=%H %s'],capture_output=True,text=True).stdout.strip().split('\n')
-src = [l.split()[0] for l in hooks_commits if ' verif hooks' in l]
+src = [l.split()[0] for l in hooks_commits if ' verif hooks' in l or ' verif: ' in l]
 checks = []
 na = []
 for pid in sorted(props):
